@@ -205,3 +205,5 @@ def run(ctx):
     r3_4(ctx)
     r3_5(ctx)
     r3_6(ctx)
+    from ..initflags import group_rule
+    group_rule(ctx, "R3.7", "pairing", "a task keeps a resource that no longer knows the task (or the reverse), so the next allocation hands the resource to a second task")
